@@ -7,6 +7,7 @@ package c09
 
 import (
 	"fmt"
+	"go/ast"
 	"go/parser"
 	"go/scanner"
 	"go/token"
@@ -150,5 +151,63 @@ func parseTieCases(meta *common.Meta, outDir string, rng intner, tier string) in
 	meta.Distribution["parser_tie_cases"] = len(lines)
 	meta.Distribution["parser_tie_skipped"] = skipped
 	meta.Distribution["parser_tie_tokens_div8_histogram"] = depthHist
+	return len(lines)
+}
+
+// underefTieCases: every underef diagnostic on a selector expression — the dereferenced operand as a model tree, the
+// field, and the tokens of the suggestion the checker printed — compared in Coq with Model_PrecParse.underef_sel_text.
+func underefTieCases(meta *common.Meta, outDir string, dirs []string) int {
+	var lines, idx []string
+	re := quoteRules["underef"]
+	for _, dir := range dirs {
+		env, err := loadDir(dir, nil)
+		if err != nil || env.errs > 0 {
+			continue
+		}
+		for _, fd := range env.run(map[string]bool{"underef": true}) {
+			m := re.FindStringSubmatch(fd.w.Text)
+			if m == nil {
+				continue
+			}
+			for _, f := range env.files {
+				if env.fset.Position(f.Pos()).Filename != fd.file {
+					continue
+				}
+				ast.Inspect(f, func(n ast.Node) bool {
+					sel, ok := n.(*ast.SelectorExpr)
+					if !ok || sel.Pos() != fd.w.Pos {
+						return true
+					}
+					par, ok := sel.X.(*ast.ParenExpr)
+					if !ok {
+						return true
+					}
+					star, ok := par.X.(*ast.StarExpr)
+					if !ok {
+						return true
+					}
+					c := &precConv{fset: env.fset, floors: map[string]int{}}
+					tree := c.expr(star.X)
+					toks, okT := scanTokens(m[2])
+					if strings.Contains(tree, "ESeq") || !okT {
+						return false
+					}
+					var ts []string
+					for _, t := range toks {
+						ts = append(ts, coqfmt.Str(t))
+					}
+					lines = append(lines, fmt.Sprintf("  (%s, %s, [%s])", tree, coqfmt.Str(sel.Sel.Name), strings.Join(ts, "; ")))
+					idx = append(idx, fd.w.Text)
+					return false
+				})
+			}
+		}
+	}
+	fn := "cases_c09_underef"
+	common.WriteFile(filepath.Join(outDir, fn+".v"), "From GC Require Import Base Model_Prec Model_PrecParse.\nDefinition case_ok := underef_case_ok.\nDefinition cases : list (ex * string * list string) := [\n"+
+		strings.Join(lines, ";\n")+"\n].\nDefinition M := Eval vm_compute in mismatches case_ok cases.\nPrint M.\n")
+	common.WriteFile(filepath.Join(outDir, fn+".index.txt"), strings.Join(idx, "\n")+"\n")
+	meta.CaseFiles = append(meta.CaseFiles, fn+".v")
+	meta.Distribution["underef_tie_cases"] = len(lines)
 	return len(lines)
 }
